@@ -12,10 +12,12 @@ import (
 	"os"
 	"os/exec"
 	"path/filepath"
+	"runtime"
 	"sort"
 	"strconv"
 	"strings"
 	"syscall"
+	"time"
 
 	"github.com/rogpeppe/go-internal/lockedfile"
 
@@ -31,6 +33,11 @@ type acq struct {
 	Form string `json:"form"` // open, create, edit, rdonly, wronly, rdwr, mutex, mutexShared
 	Path string `json:"path"` // "p" or "q"; "d" is a directory (an acquisition may fail, then nothing is held), "f" a FIFO, "n" a path at which nothing exists when the holders start
 	Dup  bool   `json:"dup"`  // a copy of the descriptor exists while Close runs (a forked child that has not exec'd yet)
+	// Rel: the path is given relative to the current directory (which is the
+	// scenario's directory); GC: the garbage collector runs, and finalizers get
+	// time to, while the lock is held
+	Rel bool `json:"rel,omitempty"`
+	GC  bool `json:"gc,omitempty"`
 }
 
 // flags:<n> forms call OpenFile with exactly these flags
@@ -191,6 +198,9 @@ func (in *instance) probeReleased(th int, a acq) {
 
 func (in *instance) body() {
 	vsync.ResetNames()
+	if err := os.Chdir(in.dir); err != nil {
+		kit.Harness("chdir: %v", err)
+	}
 	fsched.EINTROnce = in.sc.EINTR
 	fsched.Install()
 	in.holders = map[string][]holder{}
@@ -267,6 +277,9 @@ func (in *instance) one(th int, a acq) { acquireOnce(in, in.dir, in.shared, th, 
 // lockedfile package and reports to m.
 func acquireOnce(m monitor, dir string, shared *lockedfile.Mutex, th int, a acq) {
 	path := filepath.Join(dir, a.Path)
+	if a.Rel {
+		path = a.Path
+	}
 	m.acquiring(a.Path, +1)
 	var f *lockedfile.File
 	var unlock func()
@@ -307,6 +320,14 @@ func acquireOnce(m monitor, dir string, shared *lockedfile.Mutex, th int, a acq)
 		return
 	}
 	m.register(th, a)
+	if a.GC {
+		// whatever the collector may do to objects the package has let go of must
+		// not end the lock early
+		runtime.GC()
+		time.Sleep(2 * time.Millisecond)
+		runtime.GC()
+		time.Sleep(time.Millisecond)
+	}
 	m.criticalSection(a)
 	dup := -1
 	if a.Dup && f != nil {
@@ -379,6 +400,7 @@ func (r *remote) fail(msg string)                  { r.send("E %s", strings.Repl
 
 func pchildMain(spec pchildSpec) {
 	r := &remote{out: bufio.NewWriter(os.Stdout), in: bufio.NewReader(os.Stdin)}
+	os.Chdir(spec.Dir)
 	if spec.Unpriv && os.Geteuid() == 0 {
 		syscall.Setgroups(nil)
 		if syscall.Setgid(65534) != nil || syscall.Setuid(65534) != nil {
@@ -717,6 +739,13 @@ func scenarios(th bool) []scenario {
 			b = 2 // 70 scenarios with real processes: all schedules of each do not fit the cap
 		}
 		ps = append(ps, scenario{sc.Name + pmodeTag, sc.Threads, b, false})
+	}
+	// relative paths, and a garbage collection while the lock is held
+	rg := func(form string) acq { return acq{Form: form, Path: "p", Rel: true, GC: true} }
+	for _, t := range [][][]acq{{{rg("edit")}, {a("edit", "p")}}, {{rg("mutex")}, {a("mutex", "p")}}, {{rg("open")}, {a("edit", "p")}}, {{rg("create")}, {rg("edit")}}} {
+		sc := scenario{fmt.Sprintf("%s(relative path, GC)||%s", t[0][0].Form, t[1][0].Form), t, 2, false}
+		scs = append(scs, sc)
+		ps = append(ps, scenario{sc.Name + pmodeTag, t, 1, false})
 	}
 	// a lock file that the holders may read but not write (they give up root first)
 	for _, t := range [][][]acq{{{a("mutex", "r")}, {a("mutex", "r")}}, {{a("mutex", "r")}, {a("open", "r")}}, {{a("edit", "r")}, {a("open", "r")}}, {{a("open", "r")}, {a("open", "r")}}} {
